@@ -632,6 +632,10 @@ def _is_callable_term(t):
         return True  # a module constant (a record, a table, a compiled pattern): specialise on it
     if t[0] == "lit" and len(t) == 4 and t[1] == "tuple" and t[2] and all(_is_callable_term(x) or is_const(x) for x in t[2]) and any(_is_callable_term(x) for x in t[2]):
         return True  # a tuple of classes / functions (isinstance(x, TYPES), a table row)
+    if t[0] == "lit" and len(t) == 4 and t[1] == "dict" and t[2] and all(is_const(k) and (_is_callable_term(v) or is_const(v)) for k, v in t[2]) and any(_is_callable_term(v) for _k, v in t[2]):
+        return True  # a table {name: function}
+    if t[0] == "call" and len(t) == 4 and t[1] == "ext:inspect.signature" and len(t[2]) == 1 and _is_callable_term(t[2][0]):
+        return True  # the signature object of a known function: its bind() is unfolded
     if t[0] == "partial" and len(t) == 4:
         return _is_callable_term(t[1]) or (isinstance(t[1], tuple) and t[1] and t[1][0] == "global")
     return False
